@@ -163,6 +163,11 @@ class Conv:
             r = it.run_fn(find_fn(it.prog, 'Response', 'from_string'), [Buf.from_bytes(body, 'String')])
         elif kind == 'data':
             r = it.run_fn(find_fn(it.prog, 'Response', 'from_data'), [Buf.from_bytes(body, 'Vec')])
+        elif kind == 'reader':
+            # Response::new over a reader whose length is not declared
+            from props.respcommon import PieceReader
+            rd = PieceReader(self.ctx, [bv(c, 8) for c in body], pieces=False)
+            return it.run_fn(find_fn(it.prog, 'Response', 'new'), [Struct('StatusCode', [bv(status or 200, 16)]), VecObj([]), rd, NONE(), NONE()])
         else:
             r = it.run_fn(find_fn(it.prog, 'Response', 'empty'), [Struct('StatusCode', [bv(status or 204, 16)])])
             return r
